@@ -21,6 +21,9 @@ def run(tier, seed):
                     progs.append(Program(kinds, e, a, pointer=pn))
     if tier == "quick":
         progs = progs[::2]
+    # network byte order spelled '!' with byte-based and packed pointer widths (every site that branches on the byte order)
+    progs += [Program(k, "!", a, pointer=pn) for pn in ("uint16", "uint24", "uint48") for k in (["ptr"], ["a_ptr_2"], ["u8", "ptr", "u16"])
+              for a in (False, True)]
     rep.add_case_results(run_cases([("t2.cases", "make_rel", (p.to_json(),)) for p in progs]), "T2")
     run_pipeline(rep, progs, ["C01", "C02", "C04"])
     # bounded stand-in (covers what an undecided contract obligation would leave open): native dereference behaviour
